@@ -775,8 +775,8 @@ def emit_writer(n, case, impl):
         defs = ["Definition o%d := Eval vm_compute in x_buf_session %s %s." % (n, coq_nat(cap), args)]
         sink, buffered = "(b_inner (x_buf_drop (o_final o%d)))" % n, "(b_buf (o_final o%d))" % n
     m = ("(map %s (o_calls o%d), option_map %s (o_fin o%d), s_data %s, N.of_nat (s_calls %s), N.of_nat (s_flushes %s), %s, "
-         "s_data (o_final (x_mem_session %s %s)))" % (cr, n, cr, n, sink, sink, sink, buffered,
-                                                      "[" + "; ".join(coq_chunks(c) for c in cs) + "]", coq_chunks(fin)))
+         "s_data (o_final (x_mem_session %s %s)), N.of_nat (s_unflushed %s))" % (cr, n, cr, n, sink, sink, sink, buffered,
+                                                      "[" + "; ".join(coq_chunks(c) for c in cs) + "]", coq_chunks(fin), sink))
     return defs, None, m
 
 
@@ -806,15 +806,15 @@ def writer_common(case, m):
     prefill = hexbytes(f[2])
     cs, fin = writer_calls(f[6])
     total = sum(len(ch) for c in cs + [fin] for ch in c)
-    rcalls, rfin, data, wcalls, flushes, buffered, memdata = m
+    rcalls, rfin, data, wcalls, flushes, buffered, memdata, unfl = m
     calls_s = ",".join(status_string(st) + ":" + ("-" if i == 0 and not is_app(st, "IoOk") else "%d" % bw) for i, (st, bw, wa) in enumerate(rcalls))
     fin_s = opt(rfin, lambda c: status_string(c[0]), "none")
-    common = "%s|%s|len=%d|calls=%d|fl=%d|dig=%08x" % (calls_s, fin_s, len(data), wcalls, flushes, fnv32(data, len(prefill) + total))
-    return prefill, rcalls, rfin, data, flushes, buffered, memdata, common
+    common = "%s|%s|len=%d|calls=%d|fl=%d|dig=%08x|unfl=%d" % (calls_s, fin_s, len(data), wcalls, flushes, fnv32(data, len(prefill) + total), unfl)
+    return prefill, rcalls, rfin, data, flushes, buffered, memdata, unfl, common
 
 
 def render_c07(case, impl, s, m):
-    prefill, rcalls, rfin, data, flushes, buffered, memdata, common = writer_common(case, m)
+    prefill, rcalls, rfin, data, flushes, buffered, memdata, unfl, common = writer_common(case, m)
     ok = lambda st: is_app(st, "IoOk")
     if not all(ok(c[0]) for c in rcalls):
         st = "differs:call-failed"
@@ -822,10 +822,12 @@ def render_c07(case, impl, s, m):
         st = "differs:finish-failed"
     elif data != prefill + memdata:
         st = "differs:bytes"
-    elif buffered:
-        st = "differs:left-in-buffer"
     elif flushes < 1:
         st = "differs:not-flushed"
+    elif unfl > 0:
+        st = "differs:written-after-the-last-flush"
+    elif buffered:
+        st = "differs:left-in-buffer"
     elif not all(bw == wa - len(prefill) for (_, bw, wa) in rcalls):
         st = "differs:bytes_written"
     else:
@@ -836,7 +838,7 @@ def render_c07(case, impl, s, m):
 def render_c11(case, impl, s, m):
     if case.startswith("cont\t"):
         return "finished=yes" if coq_b(s) else "finished=no", None
-    prefill, rcalls, rfin, data, flushes, buffered, memdata, common = writer_common(case, m)
+    prefill, rcalls, rfin, data, flushes, buffered, memdata, unfl, common = writer_common(case, m)
     allst = [c[0] for c in rcalls] + ([] if rfin == "None" else [rfin.args[0][0]])
     fe = next(((i, st.args[0]) for i, st in enumerate(allst) if is_app(st, "IoErr", 1)), None)
     if any(isinstance(st, str) and st in ("IoPanic", "IoDiverge") for st in allst):
@@ -844,7 +846,7 @@ def render_c11(case, impl, s, m):
     elif fe:
         st = "err-io" if fe[0] == len(allst) - 1 else "continued-after-error"
     else:
-        st = "finished" if data == prefill + memdata and flushes >= 1 and not buffered else "finished-incomplete"
+        st = "finished" if data == prefill + memdata and flushes >= 1 and unfl == 0 and not buffered else "finished-incomplete"
     return st, ("fail=%d:%s" % (fe[0], string_of_kind(fe[1])) if fe else "fail=none") + "|" + common
 
 
